@@ -50,7 +50,7 @@ template <class T> static void run_factor_exits(Choice &c, Ctx &cx)
     FactorProblem<T> P = gen_factor_problem<T>(c, cx, cx.tier, true, true, &G, 10);
     int k = std::min(P.m, P.n);
     unsigned exitk = c.below(4);     // 0 success (library), 1 success/shortage (caller workspace), 2 injected growth failure, 3 tiny workspace
-    StorageCfg cf; static const int fl[] = {1, 2, 3, 5, 1, 2, 30, 1}; cf.fill = fl[c.below(8)];
+    StorageCfg cf; static const int fl[] = {1, 2, 3, 5, 1, 2, 30, 1}; cf.fill = fl[c.below(8)]; if (P.stress) cf.fill = 1;
     long fault = 0;
     if (cx.dump) { cx.d(fmt("%s m=%d n=%d exit-class=%u fill=%d", P.ilu ? "gsitrf" : "gstrf", P.m, P.n, exitk, cf.fill)); cx.d(opts_str(P.o, false)); if (P.ilu) cx.d(ilu_str(P.io)); cx.d(gmat_str(G, Tr<T>::is_complex)); }
     if (cx.is_known("F-SS") && maybe_exactly_singular(G)) { cx.exclude("F-SS"); return; }
